@@ -12,6 +12,7 @@ mod probe9;
 mod probe10;
 mod probe11;
 mod probe12;
+mod probe13;
 use cosmwasm_std::{coin, Coin, Decimal, Uint128};
 use cw_multi_test::Executor;
 use mantra_dex_std::farm_manager as fm;
@@ -296,6 +297,7 @@ fn main() {
     if which.iter().any(|w| w == "dbg") { probe11::dbg(); }
     if which.iter().any(|w| w == "c10curve") { probe11::c10_curve(); }
     if which.iter().any(|w| w == "cpgrid") { probe12::run(); }
+    if which.iter().any(|w| w == "f2bfs") { let d: usize = which.iter().filter_map(|x| x.parse().ok()).next().unwrap_or(3); probe13::run(d); }
     if which.iter().any(|w| w == "partest") { probe4::partest(); }
     if which.iter().any(|w| w == "bfs") { let d: usize = which.iter().filter_map(|x| x.parse().ok()).next().unwrap_or(3); probe4::run(d); }
     let _ = Uint128::zero();
